@@ -7,7 +7,7 @@ from mc.core import Acc
 
 ID = "C15"
 RULE = ("E-INPUT: every ordered pair of distinct domain instants from a set of datetimes spanning 1900..2200 (epoch neighbours, "
-        "leap day, year ends, ms-resolution instants: 120 instants, thorough 408; + a seeded instant), plus domains of 1 ms .. 61 s at every instant, x 3 ranges (scale built domain-then-range, range-then-domain, by re-domaining a live scale, around a caller-owned inner LinearScale that is re-ranged after first use, or from caller-owned lists that the caller edits afterwards, before a later re-domain, in rotation; every other query instant is an instance of a datetime subclass) x query instants "
+        "leap day, year ends, ms-resolution instants: 120 instants, thorough 408; + a seeded instant), plus domains of 1 ms .. 61 s at every instant, x 3 ranges (scale built domain-then-range, range-then-domain, by re-domaining a live scale, around a caller-owned inner LinearScale that is re-ranged after first use, from caller-owned lists that the caller edits afterwards, before a later re-domain, or from one-shot iterators, in rotation; every other query instant is an instance of a datetime subclass) x query instants "
         "(end points, 5 interior fractions, 4 exterior points) through the real TimeScale. Oracle: exact affine map on naive "
         "epoch milliseconds (rationals); invert within 1 ms inside the domain; agreement with LinearScale on the oracle's "
         "milliseconds. Non-trivial: query strictly inside or outside the domain.")
@@ -34,7 +34,7 @@ def bounds(tier, seed):
             "queries_per_domain": 2 + len(FRACS) + len(EXT)}
 
 
-ORDERS = ("domain-range", "range-domain", "redomain", "inner-linear", "caller-lists")
+ORDERS = ("domain-range", "range-domain", "redomain", "inner-linear", "caller-lists", "iterators")
 
 
 class Stamp(datetime):
@@ -47,6 +47,13 @@ def make_scale(t0, t1, rng, order):
         return TimeScale().domain([t0, t1]).range(list(rng))
     if order == "range-domain":
         return TimeScale().range(list(rng)).domain([t0, t1])
+    if order == "iterators":
+        # one-shot iterables (generators, reversed(), map objects) are as good as lists: a live scale is re-domained and
+        # re-ranged from them
+        s = TimeScale().domain([datetime(2000, 1, 1), datetime(2001, 1, 1)]).range([7, 8])
+        s.domain(t for t in (t0, t1))
+        s.range(reversed([rng[1], rng[0]]))
+        return s
     if order == "caller-lists":
         # the caller goes on using the lists it handed to the setters (a narrow and a wide axis built from one list)
         r, d = list(rng), [t0 + (t1 - t0) / 3, t1]
